@@ -1006,3 +1006,9 @@ def nontrivial(line, reply):
     if op in ("dmv", "dvm"):
         return " ".join(t[:6])
     return " ".join(t[:5])
+
+# --- deep theorems (Rounding3)
+PROOF_MODULES = PROOF_MODULES + ['Compute.Lemmas.MatmulRounding', 'Compute.Props.Rounding3']
+REQUIRED_THEOREMS = REQUIRED_THEOREMS + ['Cv.Rounding3.matmul_error', 'Cv.Rounding3.matmul_error_succ', 'Cv.Rounding3.matmulBlocked_error', 'Cv.Rounding3.xtx_error', 'Cv.Rounding3.matmul_error_infnorm', 'Cv.Rounding3.dotMM_error', 'Cv.Rounding3.f64_matmul_note']
+NOT_PROVED = [x for x in NOT_PROVED if not any(k in str(x) for k in ('f64 rounding',))]
+NOT_PROVED = NOT_PROVED + ['f64 rounding of products with real entries is bounded by theorem in the standard model (Props/Rounding3: |C - op(A)op(B)| <= gamma_l |op(A)||op(B)| entrywise for all four flag pairs, the blocked variant, xtx and the Dot methods); the trusted link is that IEEE binary64 obeys fl(a op b) = (a op b)(1+d), |d| <= 2^-53']
